@@ -76,6 +76,9 @@ def run(ctx, res):
         ex += R.exhaustive_cases(4, 2)[len(R.exhaustive_cases(3, 2)):]
     # 2. random profiles, 2-6 candidates, 1-60 ballots
     rnd = [R.gen_case(rng) for _ in range(ctx.n(3200, 30000))]
+    rp = R.replay_cases(ctx)
+    if rp:                      # --replay: only the recorded case(s), re-run on the current implementation
+        ex, rnd = [], rp
     cases = R.run_cases(ex) + R.run_cases(rnd, rng)
     cr = C.run_corr(ctx.pid, "raire_ex", R.IMPORTS, "raire_case", ex, R.case_lit, "agree_c04", shard=500, show="show_c04")
     res.corr.append(("compute_raire_assertions output vs verified check_output / possible (RaireCheck.v), exhaustive small profiles",
@@ -99,7 +102,7 @@ def run(ctx, res):
         if c["n"] >= 3 and (out or c.get("tag", "").split("/")[1:2] in (["wrong"], ["tied"])):
             res.nontrivial.add(R.digest(c))
     res.rule = ("every multiset of <= 4 partial rankings over 2-3 candidates x every reported winner (exhaustive), plus random "
-                "profiles (9 styles incl. forced ties, near-ties, cycles, blanks, CVRs lacking the contest, tot_ballots above the "
+                "profiles (12 styles incl. forced ties with and without a clear favourite, near-ties, cycles, spatial, doubling ladders, blanks, CVRs lacking the contest, tot_ballots above the "
                 "CVR count) of 2-6 candidates and 1-60 ballots with right / wrong / tied reported winners, bp and cp difficulty "
                 "(shipped float functions and Fraction-valued ones), five kinds of order hint or none, 10% second call on the same "
                 "objects; non-trivial = >= 3 candidates and (non-empty output, or wrong/tied winner), distinct by "
